@@ -1,6 +1,8 @@
 (* C07 model runner.
    request:  scan <last_eof 0|1> <RS hex> <regex wire | -> <chunks>
              chunks = comma separated hex strings ("-" = a read of 0 bytes), "." = no read at all
+             scan2 <last_eof> <RS1 hex> <regex1> <k> <RS2 hex> <regex2> <chunks>
+                                         (RS1 a regex RS; the action of record k assigns RS = RS2)
    answer:   panic                       (assigning RS panics)
              <stop> <rec>:<rt> ...       (records in order, hex) *)
 open Model
@@ -46,6 +48,11 @@ let handle = function
        | Some (recs, st) ->
            String.concat " " (stop_name st ::
              List.map (fun (r, t) -> hex_of_bytes r ^ ":" ^ hex_of_bytes t) recs))
+  | ["scan2"; le; rs1; rw1; k; rs2; rw2; cs] ->
+      let (recs, st) = records_sched (bool_of_string le) (bytes_of_hex rs1) (re_of_wire rw1)
+                         (nat_of_int (int_of_string k)) (bytes_of_hex rs2) (re_of_wire rw2) (chunks_of cs) in
+      String.concat " " (stop_name st ::
+        List.map (fun (r, t) -> hex_of_bytes r ^ ":" ^ hex_of_bytes t) recs)
   | ["find"; rw; s] ->
       (match find (re_of_wire rw) (bytes_of_hex s) with
        | None -> "none"
